@@ -46,7 +46,11 @@ patch, touched packages' runnable tests still pass) before it was kept, and ever
 (`tools/mutrun.sh` in a scratch worktree; none was ever applied to `/repo`). "first" is the verdict of the check as it
 was when the change arrived; where it was missed the check was strengthened (the extension is described in the
 property's "As built" paragraph / `checks/<cid>/NOTES*.md`) and run again ("→ final"). Machine-readable:
-`seeded/results.json`, per change `seeded/<id>/meta.json`.
+`seeded/results.json`, per change `seeded/<id>/meta.json`. Ids `-1..-3` are the first reviewer round, `-4..-6` the second
+(§8b; those reviewers were told what the first round had submitted). One change is missed by every check at the end:
+C03-5 (trace `mergeBlocks` keeps the pending block after a merged block exceeds the 2 MiB limit) — it needs a trace
+engine with a merged-block-over-limit alphabet, which c03 (measure/stream/sidx engines), c13 and c01 do not have; the
+required data pool is described in `checks/c03/NOTES-round2.md`.
 
 | id | change | needs | confirmed | checks (first → final) |
 |---|---|---|---|---|
